@@ -124,5 +124,5 @@ def c08(ctx):
 
 @register("C20")
 def c20(ctx):
-    cov = run(ctx, ["C20."], 8, 120, 1, 2, "crash points inside recovery")
+    cov = run(ctx, ["C20."], 8, 60, 1, 2, "crash points inside recovery")  # (thorough: 60 workloads at nesting depth 2, every leaf followed by commit / crash / restart: ~45 min)
     vlib.write_evidence(ctx, "model_checking", cov, ASSUME)
